@@ -1134,3 +1134,47 @@ pub fn length_ladder(max_len: usize, locales: bool) -> Vec<Vec<u8>> {
     }
     out.into_iter().collect()
 }
+
+/// Call histories of length two for the stateless entry points (space E3.pairs): for every
+/// ORDERED pair (x, y) of a menu the checker runs on x and then, in the same thread, on y.  The
+/// parsers and queries keep no state, so the order of calls cannot matter -- unless a change adds
+/// a memo, a scratch buffer or a thread-local cache; then the answer for y depends on the x
+/// before it, which a sweep that visits every input once, in one fixed order, sees only by
+/// accident.  The menu is closed under "is a prefix of" (every byte prefix of three identifiers)
+/// and contains near-duplicates (same text in another case / separator, one subtag more or less).
+pub struct PairSpace {
+    pub label: String,
+    pub items: Vec<Vec<u8>>,
+}
+impl Space for PairSpace {
+    fn name(&self) -> String {
+        self.label.clone()
+    }
+    fn outer_len(&self) -> u64 {
+        (self.items.len() * self.items.len()) as u64
+    }
+    fn visit(&self, outer: u64, buf: &mut Vec<u8>, f: &mut dyn FnMut(&[u8])) {
+        let n = self.items.len() as u64;
+        for k in [outer / n, outer % n] {
+            buf.clear();
+            buf.extend_from_slice(&self.items[k as usize]);
+            f(buf);
+        }
+    }
+    fn describe(&self) -> Value {
+        json!({"kind": "every ordered pair (x, y) of the menu: the checker runs on x, then on y in the same thread (histories of two calls)", "menu": self.items.len(), "pairs": self.items.len() * self.items.len()})
+    }
+}
+
+pub fn history_menu() -> Vec<Vec<u8>> {
+    let mut set = std::collections::BTreeSet::new();
+    for base in ["en-Latn-US-valencia-u-ca-buddhist-t-de-h0-hybrid-x-a", "sr-Cyrl-RS-1996-fonipa", "und-419"] {
+        for i in 0..=base.len() {
+            set.insert(base.as_bytes()[..i].to_vec());
+        }
+    }
+    for w in ["de-AT", "de", "d", "DE_at", "de-at-1996", "en-US", "EN-us", "en_US", "en-GB", "zh-Hant-TW", "zh-TW", "en-u-ca-buddhist", "en-u-ca-gregory", "en-t-de", "en-x-a", "en-x-b", "e", "toolongsubtag", "en-a-foo", "en-US-u-ca-true"] {
+        set.insert(w.as_bytes().to_vec());
+    }
+    set.into_iter().collect()
+}
